@@ -85,6 +85,12 @@ type Profile struct {
 	WithGhost bool
 	Oracles   []Oracle
 	MaxTrans  int64         // cap on transitions (0 = none)
+	// MaxStates caps the visited set, MaxFrontier the number of stored (encoded) states of one
+	// level (0 = defaults). When a cap is hit the level in progress is still checked completely
+	// (every new state hashed and examined), but the search does not go deeper; the result says
+	// exhaustive:false and names the last fully expanded depth.
+	MaxStates   int64
+	MaxFrontier int64
 	Deadline  time.Duration // internal time cap (0 = none); hitting it ends the run with Exhaustive=false
 	Workers   int
 	// PostStep, if set, is called on every transition after the oracles (differential checks).
@@ -203,10 +209,18 @@ func Run(p *Profile) (*Result, error) {
 	}
 	res.PerDepthStates = append(res.PerDepthStates, int64(len(frontier)))
 	var trans, legsN int64
-	var stop int32
+	var stop, noDeeper int32
+	maxStates, maxFrontier := p.MaxStates, p.MaxFrontier
+	if maxStates == 0 {
+		maxStates = 40_000_000
+	}
+	if maxFrontier == 0 {
+		maxFrontier = 4_000_000
+	}
 	for depth := 0; depth < p.Depth && len(frontier) > 0; depth++ {
 		next := make([][]*node, workers)
 		var newStates int64
+		statesSoFar := res.States
 		var wg sync.WaitGroup
 		var cursor int64
 		for wi := 0; wi < workers; wi++ {
@@ -262,10 +276,14 @@ func Run(p *Profile) (*Result, error) {
 							for _, o := range p.Oracles {
 								o.State(c, post)
 							}
-							atomic.AddInt64(&newStates, 1)
-							if depth+1 < p.Depth {
-								nn.enc, nn.meta = post.Encode(), post.Meta
-								next[wi] = append(next[wi], nn)
+							ns := atomic.AddInt64(&newStates, 1)
+							if depth+1 < p.Depth && atomic.LoadInt32(&noDeeper) == 0 {
+								if ns > maxFrontier || statesSoFar+ns > maxStates {
+									atomic.StoreInt32(&noDeeper, 1)
+								} else {
+									nn.enc, nn.meta = post.Encode(), post.Meta
+									next[wi] = append(next[wi], nn)
+								}
 							}
 						}
 					}
@@ -286,6 +304,11 @@ func Run(p *Profile) (*Result, error) {
 			break
 		}
 		res.DepthCompleted = depth + 1
+		if atomic.LoadInt32(&noDeeper) != 0 && depth+1 < p.Depth {
+			res.Exhaustive = false
+			res.CapHit = fmt.Sprintf("state/frontier cap (%d states, %d per level) hit: the %d new states of depth %d were all checked but not expanded", maxStates, maxFrontier, newStates, depth+1)
+			break
+		}
 		frontier = frontier[:0]
 		for _, l := range next {
 			frontier = append(frontier, l...)
